@@ -248,3 +248,5 @@ func firstLine(s string) string {
 	}
 	return s
 }
+
+func (Engine) Text(sci interface{}) string { return sci.(*Scenario).Prog.Render() }
